@@ -29,7 +29,7 @@ import vlib  # noqa: E402
 LEVEL = "model_checking"
 PKG = "bind/attrsyncb"
 
-MC_OK = ["XA_mc2", "XA_mc2q", "XA_mc2k", "XA_mc3"]
+MC_OK = ["XA_mc2q", "XA_mc2k", "XA_mc3"]   # + XA_mc2 (two keys, 79 k states) in the thorough tier
 MC_CEX = [("XA_mc3_conflict", "Converges"), ("XA_mc_overlap", "")]
 
 
@@ -51,7 +51,7 @@ def run(ctx):
                         "64-bit checksum collisions are ignored"]
     only = os.environ.get("VERIF_X03_ONLY", "")  # development: "drive" skips the (M) runs
     if not only:
-        for cfg in MC_OK:
+        for cfg in MC_OK + (["XA_mc2"] if thorough else []):
             m = ctx.modelcheck("AttrSync", cfg, timeout=600, workers=4)
             if m.violation:
                 raise vlib.Inconclusive("the merge rule as modelled violates a property in %s:\n%s" % (cfg, m.violation[:2500]))
@@ -68,7 +68,7 @@ def run(ctx):
     if thorough:
         r = ctx.generate("AttrSync", "XA_bfs3", mode="bfs", timeout=900, workers=4)
         ctx.drive(PKG, "TestAttrSync", beh=r.behaviours, env=dict(env, VERIF_NPROFILES=1), label="X03/bfs3", timeout=2400)
-    for cfg, num in (("XA_sim2", 2500 if thorough else 300), ("XA_sim3", 3500 if thorough else 400)):
+    for cfg, num in (("XA_sim2", 2500 if thorough else 200), ("XA_sim3", 3500 if thorough else 250)):
         r = ctx.generate("AttrSync", cfg, mode="simulate", num=num, depth=16, timeout=600)
         ctx.drive(PKG, "TestAttrSync", beh=r.behaviours, env=dict(env, VERIF_NPROFILES=(2 if thorough else 1)),
                   label="X03/" + cfg, timeout=2400)
